@@ -189,7 +189,10 @@ def main(argv: list[str]) -> int:
             elif kind == "reopen":
                 db = dbs[op["db"]]
                 if db is not None:
-                    db.close()
+                    try:
+                        db.close()
+                    except Exception as e:  # noqa: BLE001 - noted; durability is judged from the files
+                        say({"t": "close_error", "exc": repr(e)[:200]})
                     dbs[op["db"]] = None
                 (identity if op["db"] == "id" else wallet)()
             else:
@@ -197,6 +200,9 @@ def main(argv: list[str]) -> int:
         except sqlite3.IntegrityError as e:
             say({"t": "rej", "i": i, "exc": repr(e)})
             continue
+        except Exception as e:  # noqa: BLE001
+            # the library raised on a legal call: for the durability question this is where the process ends
+            die({"mode": "error", "event": state["api"], "phase": "during", "name": f"{kind}: {e!r}"[:120]})
         if batch is not None and kind in ("token", "meta", "att"):
             batch.append(i)
             say({"t": "ret", "i": i})       # the call returned, the commit is deferred to the end of the block
